@@ -715,6 +715,28 @@ def group_strip_rule(db, chk, cfg, rule="GROUP.strip-closed"):
 # JOIN.dispatch: which join construction a convex vertex gets (C06, C07)
 # ---------------------------------------------------------------------------
 
+def _temp_lim_for(db, ml):
+    """value the code stores into temp_lim_ for MiterLimit ml (all stores in ClipperOffset must agree)"""
+    vals = []
+    for f in db.funcs:
+        if f.is_pattern or f.body is None or f.cls != "ClipperOffset":
+            continue
+        for x in walk(f.body):
+            if x.get("kind") == "BinaryOperator" and x.get("opcode") == "=" and canon(kids(x)[0]).replace("this->", "") == "temp_lim_":
+                try:
+                    v = Interp(db, {"miter_limit_": ml}, []).ev(kids(x)[1])
+                except Unsupported as e:
+                    raise AnalysisBroken("JOIN.dispatch: cannot evaluate `%s`: %s" % (canon(x)[:80], e))
+                vals.append(float(getattr(v, "v", v)))
+    if not vals:
+        # no assignment (e.g. the value is set in a constructor's initialiser list): the comparison site is judged on its own, with the
+        # threshold the limit calls for; whether the member is up to date at every Execute is LIMIT.rederived's obligation
+        return 2.0 if ml <= 1.0 else 2.0 / (ml * ml)
+    if max(vals) - min(vals) > 1e-12:
+        raise AnalysisBroken("JOIN.dispatch: the stores into temp_lim_ disagree for MiterLimit %s: %s" % (ml, vals))
+    return vals[0]
+
+
 def join_dispatch_table(db, chk, cfg, rule="JOIN.dispatch"):
     """ClipperOffset::OffsetPoint, the part after the negligible-delta return, interpreted on convex vertices (sin_a * delta > 0) well
     away from the straight and the reversed configuration, for every JoinType, either sign of delta and miter limits on both sides of
@@ -735,7 +757,10 @@ def join_dispatch_table(db, chk, cfg, rule="JOIN.dispatch"):
     for ji, jt in enumerate(jts):
         for cos_a in (-0.8, 0.0, 0.8):
             for delta in (5.0, -5.0):
-                for temp_lim in (2.0, 0.5, 0.05):
+                for ml in (1.0, 2.0, math.sqrt(40.0)):
+                    # the threshold is what the code itself derives from this MiterLimit (every store into temp_lim_ evaluated): the
+                    # two sites - where the threshold is computed and where it is compared - are judged together, against the limit
+                    temp_lim = _temp_lim_for(db, ml)
                     sin_a = math.sqrt(1 - cos_a * cos_a) * (1 if delta > 0 else -1)        # convex: sin_a * delta > 0
                     calls = []
 
@@ -778,7 +803,7 @@ def join_dispatch_table(db, chk, cfg, rule="JOIN.dispatch"):
                     except _Return:
                         pass
                     if jt == "Miter":
-                        want = ("DoMiter" if 1 + cos_a > temp_lim else "DoSquare")
+                        want = ("DoMiter" if (ml > 1.0 and 1 + cos_a > 2.0 / (ml * ml)) else "DoSquare")
                     else:
                         want = {"Round": "DoRound", "Bevel": "DoBevel", "Square": "DoSquare"}[jt]
                     ok = len(calls) == 1 and calls[0][0] == want and calls[0][1] == (pnames[1], pnames[2], pnames[3])
@@ -791,8 +816,8 @@ def join_dispatch_table(db, chk, cfg, rule="JOIN.dispatch"):
                                  if n % 7 == 1 or not ok else None, ok=ok)
                     if not ok:
                         chk.violation(rule, f.qual, "%s/cos%s/d%s/lim%s" % (jt, cos_a, delta, temp_lim),
-                                      "convex vertex, JoinType::%s, cos_a=%s, sin_a=%.3f, delta=%s, temp_lim_=%s (miter length %.3f, limit %.3f): OffsetPoint makes %s; "
-                                      "it must make exactly %s(path, j, k%s)" % (jt, cos_a, sin_a, delta, temp_lim, math.sqrt(2 / (1 + cos_a)), math.sqrt(2 / temp_lim),
+                                      "convex vertex, JoinType::%s, cos_a=%s, sin_a=%.3f, delta=%s, temp_lim_=%s as the code derives it from the MiterLimit (miter length %.3f, limit %.3f): OffsetPoint makes %s; "
+                                      "it must make exactly %s(path, j, k%s)" % (jt, cos_a, sin_a, delta, temp_lim, math.sqrt(2 / (1 + cos_a)), ml,
                                                                                 [(c[0], c[1], c[2]) for c in calls] or "nothing", want,
                                                                                 ", cos_a" if want == "DoMiter" else (", atan2(sin_a, cos_a)" if want == "DoRound" else "")),
                                       f.where, cfg=cfg)
